@@ -107,6 +107,15 @@ def run_case(ns, mon, case):
             if not np.isfinite(opmax):
                 opmax = 0.0
             b = bound(ref, np.asarray(ref_abs, dtype=np.float64), opmax, dt, max(x.size for x in xs), K0=256 if op.name == "batch_norm" else 32)
+            if op.name == "batch_norm":
+                # the rounding of x and of the mean is divided by sqrt(var+eps): the bound follows the conditioning of the statistics used
+                x0 = xs[0].astype(np.float64)
+                vs = [x0.var(axis=tuple(i for i in range(x0.ndim) if i != 1))] + [np.abs(x.astype(np.float64)) for sp, x in zip(specs[1:], xs[1:])
+                                                                                   if not sp["int"] and x.size and sp.get("vclass") == "runvar"]
+                with np.errstate(all="ignore"):
+                    smin = min(float(np.sqrt(np.min(v) + a.get("eps", 1e-5))) for v in vs)
+                if np.isfinite(smin) and 0 < smin < 1:
+                    b = b / smin
             d = np.abs(got.astype(np.float64) - ref)
             with np.errstate(invalid="ignore"):
                 bad = ~(d <= b) & ~((got.astype(np.float64) == ref))
